@@ -78,7 +78,9 @@ def fmtToksArgs : List PExp → List Tok
 has a fractional part, a string of the fragment is no name fragment: both in braces) -/
 def fmtToksIdx : List PExp → List Tok
   | [] => []
-  | .var i :: es => .us :: .word i :: fmtToksIdx es
+  | .var i :: es =>
+    if i.toList.contains '_' then .us :: .lbrace :: .word i :: .rbrace :: fmtToksIdx es
+    else .us :: .word i :: fmtToksIdx es
   | .int v :: es => .us :: .int (String.ofList (natDigits v)) :: fmtToksIdx es
   | e :: es => .us :: .lbrace :: fmtToks e ++ .rbrace :: fmtToksIdx es
 def fmtToksAcc : List PExp → List Tok
